@@ -56,6 +56,7 @@ pub struct Opts {
     pub verbose: bool,
     pub secs: u64,
     pub sub: String,
+    pub replay_index: u64,
 }
 
 fn parse(args: &[String]) -> Opts {
@@ -71,6 +72,7 @@ fn parse(args: &[String]) -> Opts {
         verbose: false,
         secs: 0,
         sub: String::new(),
+        replay_index: 0,
     };
     let mut i = 0;
     while i < args.len() {
@@ -94,6 +96,7 @@ fn parse(args: &[String]) -> Opts {
             "--out" => o.out = val(),
             "--sub" => o.sub = val(),
             "--replay" => o.replay = val().parse().ok(),
+            "--replay-index" => o.replay_index = val().parse().unwrap_or(0),
             "-v" => o.verbose = true,
             _ => {}
         }
@@ -109,12 +112,19 @@ pub fn main(args: &[String]) -> i32 {
     }
     let o = parse(&args[1..]);
     match args[0].as_str() {
+        "selftest" => {
+            println!("svh-selftest-ok");
+            0
+        }
         "run" => run(&o),
         _ => 2,
     }
 }
 
-fn run_case(o: &Opts, case_seed: u64) -> CaseReport {
+fn run_case(o: &Opts, case_seed: u64, case_index: u64) -> CaseReport {
+    if o.sub.starts_with("origin") {
+        return crate::camp_origin::origin_case(o, case_seed, case_index);
+    }
     if o.sub.starts_with("sched") || o.sub.starts_with("os") {
         return crate::camp_conc::conc_case(o, case_seed);
     }
@@ -144,17 +154,17 @@ fn run(o: &Opts) -> i32 {
     let mut violations: Vec<String> = Vec::new();
     let mut inconclusive: Vec<String> = Vec::new();
     let mut kept_per_class: std::collections::BTreeMap<String, u32> = Default::default();
-    let seeds: Vec<u64> = match o.replay {
-        Some(cs) => vec![cs],
+    let seeds: Vec<(u64, u64)> = match o.replay {
+        Some(cs) => vec![(cs, o.replay_index)],
         None => (0..o.cases)
-            .map(|k| mix(o.seed, o.shard + k * o.nshards))
+            .map(|k| (mix(o.seed, o.shard + k * o.nshards), o.shard + k * o.nshards))
             .collect(),
     };
-    for cs in seeds {
+    for (cs, case_index) in seeds {
         if o.secs > 0 && t0.elapsed().as_secs() >= o.secs && evaluations > 0 {
             break;
         }
-        let rep = run_case(o, cs);
+        let rep = run_case(o, cs, case_index);
         evaluations += 1 + rep.extra_evals;
         counts.merge(&rep.counts);
         if rep.nontrivial {
@@ -196,6 +206,7 @@ fn run(o: &Opts) -> i32 {
                     .s("tier", &o.tier)
                     .n("seed", o.seed)
                     .s("case_seed", &cs.to_string())
+                    .s("case_index", &case_index.to_string())
                     .s("sub", &o.sub)
                     .strs("messages", &rep.violations)
                     .s("case", &rep.sample)
